@@ -131,7 +131,9 @@ class Gen:
     def char_lit(self):
         return self.ch(["'abc'", "\"xy z\"", "'it''s'", "'a!b'", "\"q&r\"", "'x;y'", "'(p)'", "'Mixed Case'",
                         "\"say \"\"hi\"\"\"", "'.and.'", "'1.0e-3'", "'a // b'",
-                        "'Warning: value out of range! Please check the input file; then retry & go on.'"])
+                        "'Warning: value out of range! Please check the input file; then retry & go on.'",
+                        "'Please check the input file; then retry & go on. Warning: value out of range!'",
+                        "'ab!cd!ef!gh!ij!kl!mn!op!qr!st!uv!wx!yz!ab!cd!ef!gh!ij!kl!mn!op!qr!st!uv!wx!yz!'"])
 
     def log_lit(self):
         return self.ch([".true.", ".false.", ".TRUE."])
@@ -364,9 +366,10 @@ class Gen:
             return "call %s(%s, %s)" % ("subOne", self.char_lit(), self.ch(NAMES_ARR) + "(1:nMax:2)"), "call"
         if k == 23 and self.p(0.85):
             return self.cyc([
-                ("if (%s) 110, 120, 130" % self.rexpr(1), "arithmetic_if"),
+                ("if (%s) %s" % (self.rexpr(1), self.ch(["110, 120, 130", "110, 110, 120", "120, 110, 120", "130, 130, 130",
+                                                         "110, 120, 120"])), "arithmetic_if"),
                 ("go to 110", "goto"), ("goto 120", "goto"),
-                ("go to (110, 120, 130), %s" % self.ivar(), "computed_goto"),
+                ("go to (%s), %s" % (self.ch(["110, 120, 130", "110, 110", "120", "130, 110, 130"]), self.ivar()), "computed_goto"),
                 ("goto (110, 120), %s + 1" % self.ivar(), "computed_goto"),
                 ("backspace 10", "backspace"), ("backspace (unit = 10, iostat = %s)" % self.ivar(), "backspace"),
                 ("endfile (10)", "endfile"), ("endfile 11", "endfile"),
@@ -420,7 +423,7 @@ class Gen:
                 ("%s = bMat(1, :) * bMat(:, 2)" % "aVec", "array_section"),
                 ("%s = iand(%s, z'ff')" % (self.ivar(), self.ivar()), "boz"),
                 # logical IF with the less usual action statements
-                ("if (%s) if (%s) 110, 120, 130" % (self.lexpr(0), self.rexpr(1)), "if_stmt"),
+                ("if (%s) if (%s) %s" % (self.lexpr(0), self.rexpr(1), self.ch(["110, 120, 130", "120, 120, 130", "110, 110, 110"])), "if_stmt"),
                 ("if (%s) go to (110, 120), %s" % (self.lexpr(0), self.ivar()), "if_stmt"),
                 ("if (%s) where (aVec > 0.0) aVec = 1.0" % self.lexpr(0), "if_stmt"),
                 ("if (%s) forall (iCnt = 1:3) aVec(iCnt) = 0.0" % self.lexpr(0), "if_stmt"),
